@@ -18,7 +18,7 @@ pub fn meta() -> Meta {
         level: "model_checking",
         rule: "explicit-state BFS over the subset lattice: state = .skf content (hidden fields included) of the remaining samples, actions = the real generic_modes::delete of every non-empty proper subset of the current names, the names given in every order (up to three names; file order, reversed and rotated above) (quick: n<=5 and n=7 with single deletions; thorough: n<=6 and the full lattice for n=8), so every subset is reached along every chain; invariant in every state: the file equals the model table and the real fresh build of the remaining samples (order kept, rows of deleted-only k-mers gone, stored counts = fresh counts). CLI family: names on the command line vs one-per-line names file (with/without trailing newline, blank line), in place and with -o; refusals (unknown name, all samples) must exit non-zero and leave the file byte-identical. Search paths are re-executed through `ska delete`.".into(),
         assumptions: vec!["sorted-row canonical form: delete treats rows independently".into()],
-        exhaustive_when_uncapped: false,
+        exhaustive_when_uncapped: true, // the declared bounded space (all selections / the whole lattice / all histories up to the depth bound / all interleavings and configurations) is enumerated completely unless capped
     }
 }
 
